@@ -1,6 +1,6 @@
 """C12 -- client results do not depend on pipelining depth or request bundling; operation text denotes the operation."""
 from vrt import glue, sim, cli, ref_cip as ref
-from vrt.ob import define
+from vrt.ob import define, concretize
 import cpppo
 from cpppo.server.enip import parser, device, logix, client, ucmm
 
@@ -135,6 +135,9 @@ HEX = '0123456789ABCDEFabcdef'
 
 
 def do_text(form, d0, d1, d2, e0, e1, h0, h1):
+    # the digits are solver variables but each path works on CONCRETE text (csv.reader / int() are C code): solver-enumerated
+    d0, d1, d2, e0, e1 = concretize(d0, 10), concretize(d1, 10), concretize(d2, 10), concretize(e0, 10), concretize(e1, 10)
+    h0, h1 = concretize(h0, 22), concretize(h1, 22)
     A, Bv, Cv = val([d0, d1]), val([e0, e1]), d2
     fragment = False
     if form == 'index':
@@ -167,8 +170,8 @@ def do_text(form, d0, d1, d2, e0, e1, h0, h1):
     try:
         op, = client.parse_operations([text], fragment=fragment)
     except Exception:
-        return form == 'range' and Bv < d0          # an empty/negative range is refused
-    if form == 'range' and Bv < d0:
+        return form in ('range', 'offset') and Bv < d0          # an empty/negative range is refused
+    if form in ('range', 'offset') and Bv < d0:
         return False
     got = dict(op)
     got['path'] = [dict(s) for s in got['path']]
